@@ -44,7 +44,7 @@ ADWIN_INV = STREAM_INV + [
 def register(R):
     R.specfn(SPEC)
     R.klass(M + ":_BucketRow",
-            fields={"bucket_count": "Int", "max_buckets": "Int", "bucket_totals": "List[Real]", "bucket_variances": "List[Real]",
+            fields={"bucket_count": "Int", "max_buckets": "Int", "bucket_totals": "Vec", "bucket_variances": "Vec",
                     "prev_bucket": "Lazy[_BucketRow]", "next_bucket": "Lazy[_BucketRow]"},
             ghost={"Qs": "List[Real]"})
     R.klass(M + ":_BucketRowList",
@@ -140,8 +140,32 @@ def register(R):
                calls={M + ":_BucketRow.remove_buckets": "contract", M + ":_BucketRowList.remove_tail": "contract"},
                check_invariant=False,
                modifies=["_window_size", "_curr_total", "_curr_variance"])
+    # bucket-row primitives (verified): shifting the arrays forward drops the oldest buckets and zero-fills the end
+    R.contract(M + ":_BucketRow.shift", tags=("C03",), params={"arr": "Vec", "num": "Int", "fill_value": "Real"}, modular=True,
+               requires=["1 <= num", "num <= len(arr)"], result="Vec",
+               ensures=["len(result) == len(arr)",
+                        "forall(i, 0, len(arr) - num, result[i] == arr[i + num])",
+                        "forall(i, len(arr) - num, len(arr), result[i] == fill_value)"],
+               modifies=[], check_invariant=False, assume_invariant=False)
     R.contract(M + ":_BucketRow.remove_buckets", tags=("C03",), params={"num_buckets": "Int"}, modular=True,
-               ensures=["self.bucket_count == old(self.bucket_count) - num_buckets"],
+               requires=["1 <= num_buckets", "num_buckets <= len(self.bucket_totals)",
+                         "len(self.bucket_variances) == len(self.bucket_totals)"],
+               ensures=["self.bucket_count == old(self.bucket_count) - num_buckets",
+                        "len(self.bucket_totals) == len(old(self.bucket_totals)) and len(self.bucket_variances) == len(old(self.bucket_variances))",
+                        # the remaining buckets move to the front, oldest first
+                        "forall(i, 0, len(self.bucket_totals) - num_buckets, self.bucket_totals[i] == old(self.bucket_totals)[i + num_buckets] and "
+                        "self.bucket_variances[i] == old(self.bucket_variances)[i + num_buckets])",
+                        "forall(i, len(self.bucket_totals) - num_buckets, len(self.bucket_totals), self.bucket_totals[i] == 0 and "
+                        "self.bucket_variances[i] == 0)"],
+               modifies=["bucket_totals", "bucket_variances", "bucket_count"])
+    R.contract(M + ":_BucketRow.add_bucket", tags=("C03",), params={"total": "Real", "variance": "Real"}, modular=True,
+               requires=["0 <= self.bucket_count", "self.bucket_count < len(self.bucket_totals)",
+                         "len(self.bucket_variances) == len(self.bucket_totals)"],
+               ensures=["self.bucket_count == old(self.bucket_count) + 1",
+                        "self.bucket_totals[old(self.bucket_count)] == total and self.bucket_variances[old(self.bucket_count)] == variance",
+                        "len(self.bucket_totals) == len(old(self.bucket_totals)) and len(self.bucket_variances) == len(old(self.bucket_variances))",
+                        "forall(i, 0, len(self.bucket_totals), implies(i != old(self.bucket_count), "
+                        "self.bucket_totals[i] == old(self.bucket_totals)[i] and self.bucket_variances[i] == old(self.bucket_variances)[i]))"],
                modifies=["bucket_totals", "bucket_variances", "bucket_count"])
     R.contract(M + ":_BucketRowList.remove_tail", tags=("C03",), params={}, modular=True,
                ensures=["self.size == old(self.size) - 1"], modifies=["tail", "head", "size"])
